@@ -47,7 +47,7 @@ CAP = {'quick': int(os.environ.get('VERIF_C03_CAP', '70')),
 NRUNS = {'quick': 18, 'thorough': 200}
 # seeds explored deeper also in the quick tier (cycles of length 2-3 that
 # only close after the frontier of the default cap)
-DEEP = {'eq_term': 400}
+DEEP = {'eq_term': 400, 'define_nullary': 250, 'eq_nested_self': 400}
 
 CYCLE_SEEDS = {
     'eq_const': '(declare-const x Int)\n(assert (= x 0))\n',
@@ -55,6 +55,16 @@ CYCLE_SEEDS = {
               '(assert (= x y))\n(assert (> y 1))\n',
     'eq_term': '(declare-const x Int)\n(declare-const y Int)\n'
                '(assert (= x (+ y 1)))\n(assert (> x 0))\n',
+    # a nullary defined function next to the variable it is defined by
+    'define_nullary': '(declare-const x Int)\n(define-fun y () Int x)\n'
+                      '(assert (> x 0))\n(assert (< y 5))\n',
+    # a variable equal to a term that mentions it two levels down
+    'eq_nested_self': '(declare-const x Int)\n'
+                      '(assert (= x (- (abs x))))\n',
+    # a chain nested in the first operand over a term of unknown sort: every
+    # proposal must still be delivered in time bounded by the input size
+    'deep_arith': '(declare-const x Int)\n(declare-fun f (Int) Int)\n'
+                  '(assert (> (+ (+ (+ (+ (+ (+ (+ (+ (+ (+ (+ (+ (+ (+ (+ (+ (+ (+ (+ (+ (+ (+ (f x) 1) 1) 1) 1) 1) 1) 1) 1) 1) 1) 1) 1) 1) 1) 1) 1) 1) 1) 1) 1) 1) 1) 0))\n',
     'inline_self': '(declare-const a Int)\n'
                    '(define-fun f ((a Int)) Int (+ a 1))\n'
                    '(assert (> (f (+ a 1)) (f a)))\n',
@@ -104,20 +114,27 @@ def explore(mods, rep, name, text, cap, hangs):
 
     exprs0 = list(nodeio.parse_smtlib(text))
     add(nodeio.write_smtlib_to_str(exprs0), P.toks_of(exprs0))
-    frontier = 0
-    while frontier < len(toks_list) and frontier < cap:
-        i = frontier
-        frontier += 1
+    expanded = set()
+
+    def expand(i):
+        """All proposals of input i as edges; False after three hangs."""
+        expanded.add(i)
         try:
             exprs = list(nodeio.parse_smtlib(texts[i]))
         except Exception:  # noqa: C04/C08's business
-            continue
+            return True
         n_nodes = mods['nodes'].count_nodes(exprs)
+        nhang = 0
         for p in P.enumerate_proposals(mods, exprs, muts, limit_s=5.0):
             rep.count()
             if p['error'] == 'timeout' or p['dt'] > max(2.0, 5e-5 * n_nodes**2):
                 hangs.append((name, p['mut'], texts[i], str(p['node'])[:200],
                               p['dt']))
+                nhang += 1
+                if nhang >= 3:
+                    # reported; do not pay the time limit for every further
+                    # node of this seed
+                    return False
                 continue
             if p['error']:
                 continue
@@ -135,6 +152,46 @@ def explore(mods, rep, name, text, cap, hangs):
                 continue
             j = add(rt, tk)
             edges.setdefault(i, {}).setdefault(j, p['mut'])
+        return True
+
+    frontier = 0
+    while frontier < len(toks_list) and frontier < cap:
+        i = frontier
+        frontier += 1
+        if not expand(i):
+            return toks_list, edges, texts
+    # Shrink probes: a cycle through a growing step (variable elimination,
+    # inlining, let substitution) closes through several shrinking steps, far
+    # beyond the breadth-first frontier.  From the result of every growing
+    # proposal found so far, follow only proposals that shrink the input and
+    # do not fall below the size the growing step started from, best first
+    # by the distance (token multisets) to the input the step started from.
+    grow = [(u, v) for u in sorted(edges) for v in sorted(edges[u])
+            if len(toks_list[v]) > len(toks_list[u])][:12]
+    import collections
+    import heapq
+    for u, v in grow:
+        floor = len(toks_list[u])
+        target = collections.Counter(toks_list[u])
+
+        def dist(x):
+            c = collections.Counter(toks_list[x])
+            return sum(((c - target) + (target - c)).values())
+
+        heap, seen, budget = [(dist(v), v)], {v}, 60
+        while heap and budget > 0:
+            _, x = heapq.heappop(heap)
+            if x == u:
+                break
+            if x not in expanded:
+                budget -= 1
+                if not expand(x):
+                    return toks_list, edges, texts
+            for y in sorted(edges.get(x, {})):
+                if y not in seen and floor <= len(toks_list[y]) < len(
+                        toks_list[x]):
+                    seen.add(y)
+                    heapq.heappush(heap, (dist(y), y))
     return toks_list, edges, texts
 
 
@@ -294,34 +351,49 @@ def main():
                            for j in members)
             if not internal:
                 continue
-            cyc = shortest_cycle(members, edges)
-            if not cyc:
-                continue
-            chain = []
-            for k, u in enumerate(cyc):
-                v = cyc[(k + 1) % len(cyc)]
-                chain.append({'mutator': edges[u][v], 'before': texts[u],
-                              'after': texts[v]})
-            muts = '+'.join(sorted({x['mutator'] for x in chain}))
-            kind = 'no-op' if len(cyc) == 1 else 'cycle'
-            looped, nw = (None, None)
-            if a.tier == 'thorough' or a.replay:
-                looped, nw = confirm_cycle([toks_list[u] for u in cyc],
-                                           texts[cyc[0]])
-            # which kind of exchange: variables for variables (the inputs
-            # of the cycle have the same number of tokens) or a variable for
-            # a term (growing and shrinking steps)
-            sizes = {len(toks_list[u]) for u in cyc}
-            shape = 'same-size' if len(sizes) == 1 else 'size-changing'
-            rep.violation(
-                f'{kind}:{muts}:{shape}' if kind == 'cycle' else f'{kind}:{muts}',
-                f'the mutators propose a {kind} around seed {name}: ' +
-                ' -> '.join(f'[{x["mutator"]}] {x["after"]!r}'
-                            for x in chain)[:700] +
-                (f'; ddSMT against the command accepting exactly these '
-                 f'inputs: looped={looped}, {nw} adoptions'
-                 if looped is not None else ''),
-                {'seed_text': text, 'chain': chain})
+            # one cycle per component; a cycle that is a recorded finding
+            # must not hide another one of the same component: cut it and
+            # look again
+            local = {u: dict(edges.get(u, {})) for u in members}
+            for _round in range(12):
+                cyc = shortest_cycle(members, local)
+                if not cyc:
+                    break
+                chain = []
+                for k, u in enumerate(cyc):
+                    v = cyc[(k + 1) % len(cyc)]
+                    chain.append({'mutator': local[u][v], 'before': texts[u],
+                                  'after': texts[v],
+                                  'delta': len(toks_list[v]) - len(toks_list[u])})
+                muts = '+'.join(sorted({x['mutator'] for x in chain}))
+                kind = 'no-op' if len(cyc) == 1 else 'cycle'
+                # the cycle as a sequence of steps (mutator and whether the
+                # input grows, shrinks or keeps its size), rotated to a
+                # canonical start: this is what identifies a finding
+                steps = [x['mutator'] + ('+' if x['delta'] > 0 else
+                                         '-' if x['delta'] < 0 else '=')
+                         for x in chain]
+                rots = [steps[k:] + steps[:k] for k in range(len(steps))]
+                sig = (f'{kind}:' + '>'.join(min(rots))) if kind == 'cycle' \
+                    else f'{kind}:{muts}'
+                looped, nw = (None, None)
+                if (a.tier == 'thorough' or a.replay) and not rep.is_known(sig):
+                    looped, nw = confirm_cycle([toks_list[u] for u in cyc],
+                                               texts[cyc[0]])
+                rep.violation(
+                    sig,
+                    f'the mutators propose a {kind} around seed {name}: ' +
+                    ' -> '.join(f'[{x["mutator"]}] {x["after"]!r}'
+                                for x in chain)[:700] +
+                    (f'; ddSMT against the command accepting exactly these '
+                     f'inputs: looped={looped}, {nw} adoptions'
+                     if looped is not None else ''),
+                    {'seed_text': text, 'chain': chain})
+                if not rep.is_known(sig):
+                    break
+                u = cyc[0]
+                v = cyc[1 % len(cyc)]
+                local[u].pop(v, None)
     for name, mut, text, node, dt in hangs:
         rep.violation(
             f'mutator-hang:{mut}:seed={name}',
